@@ -1,198 +1,163 @@
 """C18 - concurrent operations on distinct streams behave as if run sequentially.
 
-Method (DESIGN.md section 5, C18): (1) conflict analysis - which process-wide cells does any operation write?
-(frame obligations, shared with C17, extended to logical types); operations that write no shared cell commute with
-everything. (2) For every written cell the access traces of the operations are recorded by a monitor on the real
-code and merged by the schedule encoder (E3, z3): is there an interleaving in which a read observes a foreign write
-that changes the result?  (3) a model is replayed with real threads whose accesses to the cell are forced into the
-schedule found."""
-import decimal
-import io
+Method (DESIGN.md sections 5 and 10, C18):
+(1) access traces: the current source of every fastavro module is rewritten so that every attribute/subscript
+    load and store, `in` test, iteration and call reports accesses to process-wide shared state (vf.conc); each
+    operation of the scenario catalogue is recorded from the library's initial state;
+(2) conflict analysis: an operation that writes no shared cell and reads none that another writes commutes with
+    every other operation (all interleavings are equivalent to a sequential order);
+(3) for every pair of operations with conflicting cells the schedule encoder (z3: position variables, program order,
+    reads-from) decides for every (read, foreign write) pair whether an interleaving exists in which the read
+    observes the foreign write instead of what it observes sequentially;
+(4) every schedule found is replayed on the unmodified modules by real threads gated at line boundaries; a
+    violation is reported only if a thread's result then differs from the result of its operation run alone.
+The frame obligations shared with C17 (CrossHair, symbolic data) back step (2) for all data, not only the
+catalogue's."""
+import json
+import os
+import subprocess
 import threading
+import time
 import z3
 
-from vf import ch, sched
-from . import l2, l17
+from vf import ch, sched, conc
+from vf.report import PY, ROOT, REPO
+from . import l2, l17, c18ops
+
+MAX_REPLAYS_PER_PAIR = 16
 
 
-# ---------------------------------------------------------------------------------------------------------
-# monitor: access traces of the shared decimal context (the only cell any operation writes, see conflict analysis)
-# ---------------------------------------------------------------------------------------------------------
-
-def trace_decimal_context(fn):
-    """run fn() with _logical_readers_py.decimal_context replaced by a recording Context; returns the event list"""
-    import fastavro._logical_readers_py as LR
-    events = []
-
-    class Rec(decimal.Context):
-        def __setattr__(self, k, v):
-            if k == "prec":
-                events.append(("W", "decimal_context.prec", v))
-            super().__setattr__(k, v)
-
-        def create_decimal(self, *a, **k):
-            events.append(("R", "decimal_context.prec", "create_decimal"))
-            return super().create_decimal(*a, **k)
-
-    saved = LR.decimal_context
-    ctx = Rec()
-    events.clear()
-    LR.decimal_context = ctx
-    try:
-        fn()
-    finally:
-        LR.decimal_context = saved
-    return events
+def _record_all(run):
+    recs = {}
+    for name, op in c18ops.OPS.items():
+        w = conc.World()
+        ctx = op.setup()
+        for k, v in ctx.items():
+            w.rec.mark(v, f"<shared argument {k}>")
+        res, evs = conc.record(w, lambda world: op.fn(world, ctx), thread="T")
+        recs[name] = dict(result=res, events=evs, shared=len(w.rec.shared))
+        run.functions.update(w.sources())
+    return recs
 
 
-def written_cells():
-    """cells of the state inventory that some catalogue operation or logical-type operation writes (native runs of
-    the catalogue + logical round trips; the universal version of this statement is C17's frame obligations)"""
-    import fastavro._write_py as W
-    import fastavro._read_py as R
-    written = {}
-    P = {}
-    for oi, op in enumerate(l17.OPS):
-        for sk in l17.SKEYS:
-            for di in range(2):
-                before = l17.snapshot()
-                op(sk, di, P)
-                for k in l17.diff(before, l17.snapshot()):
-                    written.setdefault(k, []).append(f"{op.__name__}({sk},{di})")
-    return written
+def _rename(evs, t):
+    out = []
+    for e in evs:
+        c = conc.Event(t, e.idx, e.kind, e.label, e.key, e.val, e.file, e.line, e.occ, e.what)
+        out.append(c)
+    return out
 
 
-def decimal_roundtrip(precision, scale, value):
-    import fastavro._write_py as W
-    import fastavro._read_py as R
-    sch = {"type": "bytes", "logicalType": "decimal", "precision": precision, "scale": scale}
-    fo = io.BytesIO()
-    W.schemaless_writer(fo, sch, value)
-    fo.seek(0)
-    return R.schemaless_reader(fo, sch)
-
-
-REPLAY = '''# replay of a schedule found by the schedule encoder: two real threads run read_decimal (through
-# schemaless_reader); their accesses to the shared decimal context are forced into the order found.
-import sys, os, io, threading, decimal
-sys.path[:0] = [os.environ.get("VF_REPO", "/repo")]
-import fastavro._logical_readers_py as LR
-import fastavro._write_py as W, fastavro._read_py as R
-ORDER = {order!r}          # [(thread, access index)] in schedule order
-ARGS = {args!r}            # thread -> (precision, scale, decimal text)
-turn = [0]
-cv = threading.Condition()
-counters = {{}}
-def gate():
-    t = threading.current_thread().name
-    if t not in ARGS:
-        return
-    i = counters.get(t, 0)
-    counters[t] = i + 1
-    with cv:
-        ok = cv.wait_for(lambda: turn[0] < len(ORDER) and ORDER[turn[0]] == (t, i), timeout=20)
-        turn[0] += 1
-        cv.notify_all()
-class Shim(decimal.Context):
-    def __setattr__(self, k, v):
-        if k == "prec" and threading.current_thread().name in ARGS:
-            gate()
-        super().__setattr__(k, v)
-    def create_decimal(self, *a, **k):
-        gate()
-        return super().create_decimal(*a, **k)
-def run(p, s, text):
-    sch = {{"type": "bytes", "logicalType": "decimal", "precision": p, "scale": s}}
-    fo = io.BytesIO(); W.schemaless_writer(fo, sch, decimal.Decimal(text)); fo.seek(0)
-    return R.schemaless_reader(fo, sch)
-seq = {{t: run(*a) for t, a in ARGS.items()}}          # sequential results (unshimmed context)
-if not hasattr(LR, "decimal_context"):
-    print("not reproduced: no shared decimal context"); sys.exit(0)
-LR.decimal_context = Shim()
-res = {{}}
-ths = [threading.Thread(target=lambda t=t, a=a: res.__setitem__(t, run(*a)), name=t) for t, a in ARGS.items()]
-[x.start() for x in ths]; [x.join(60) for x in ths]
-bad = {{t: (res.get(t), seq[t]) for t in ARGS if res.get(t) != seq[t]}}
-if bad:
-    print("REPRODUCED threads interfere through the shared decimal context:", bad); sys.exit(1)
-print("not reproduced: concurrent results equal the sequential ones", res); sys.exit(0)
-'''
+def _try_replay(run, a, b, plan, expect):
+    """run the replay script in a fresh interpreter; (reproduced, script text, output)"""
+    text = c18ops.REPLAY.format(a=a, b=b, plan=json.dumps(plan), expect=json.dumps(expect))
+    path = run.write_replay(text)
+    ok, out = run.run_replay(path, timeout=180)
+    return ok, text, out, path
 
 
 def run(run, tier):
-    run.engines.add("E3 schedule encoder (z3 %s)" % z3.get_version_string())
-    # (1) conflict analysis
-    written = written_cells()
-    run.sample(dict(kind="cells written by catalogue operations", cells={f"{m}.{n}": ops[:3] for (m, n), ops in written.items()}))
-    tracked = ("fastavro._logical_readers_py", "decimal_context")
-    others = [k for k in written if k != tracked]
-    if others:
-        run.obligation("conflicts.untracked_cells", "inconclusive", f"operations write shared cells without a trace monitor: {others!r}", paths=1)
-    else:
-        run.obligation("conflicts.only_tracked_cells", "discharged",
-                       f"catalogue operations write no shared cell other than {list(written) or 'none'}", paths=len(l17.OPS) * len(l17.SKEYS) * 2)
+    run.engines.add("E3 schedule encoder (z3 %s) over access traces of the rewritten source" % z3.get_version_string())
+    t0 = time.time()
+    try:
+        recs = _record_all(run)
+    except conc.NotInstrumentable as e:
+        run.obligation("traces.instrumentation", "inconclusive", f"source construct the access rewriter does not handle: {e}", paths=1)
+        recs = {}
+    # sanity of the recording: the instrumented run returns what the real code returns
+    solo = {}
+    for name in recs:
+        solo[name] = c18ops.solo(name)
+        same = repr(solo[name]) == repr(recs[name]["result"])
+        run.validated += 1
+        if not same:
+            run.internal_errors.append(f"instrumented run of {name} differs from the real code: {recs[name]['result']!r} vs {solo[name]!r}")
+    # (2) conflict analysis
+    writers = {n: sorted({(e.label, e.key) for e in r["events"] if e.kind == "W"}) for n, r in recs.items()}
+    run.sample(dict(kind="shared cells written per operation", cells={n: [f"{l}[{k}]" for l, k in w][:6] for n, w in writers.items() if w}))
+    names = sorted(recs)
+    pairs = [(a, b) for i, a in enumerate(names) for b in names[i:]]
+    n_free, n_conf = 0, 0
+    for a, b in pairs:
+        traces = {"A": _rename(recs[a]["events"], "A"), "B": _rename(recs[b]["events"], "B")}
+        rel = sched.relevant(traces)
+        cands = sched.candidates(rel)
+        ob = f"pair.{a}.{b}"
+        if not cands:
+            n_free += 1
+            continue
+        n_conf += 1
+        # (3) + (4)
+        seen, tried, stats_q, stats_t = set(), 0, 0, 0.0
+        verdict, detail = "discharged", ""
+        benign = 0
+        expect = {"A": repr(solo[a]), "B": repr(solo[b])}
+        for (r, w) in cands:
+            k = (r.label, r.key, r.file, r.line, w.label, w.key, w.file, w.line, r.thread)
+            if k in seen:
+                continue
+            seen.add(k)
+            st, order, stats = sched.schedule_with(rel, r, w)
+            stats_q += stats["queries"]
+            stats_t += stats["solver_s"]
+            if st == "unsat":
+                continue
+            if st != "sat":
+                verdict, detail = "inconclusive", f"solver: {st} for read {r} / write {w}"
+                continue
+            if tried >= MAX_REPLAYS_PER_PAIR:
+                verdict, detail = "inconclusive", f"more than {MAX_REPLAYS_PER_PAIR} distinct feasible conflicts; the rest was not replayed"
+                break
+            tried += 1
+            plan = sched.plan_of(order, r, rel)
+            ok, text, out, path = _try_replay(run, a, b, plan, expect)
+            if ok:
+                what = (f"threads running {a} and {b}: schedule {[(e.thread, e.kind, e.what, e.key) for e in order[:order.index(r) + 1]][-6:]} lets "
+                        f"{r.thread} read {r.what}[{r.key}] written by the other thread at {os.path.basename(w.file)}:{w.line}; {out[-300:]}")
+                v = run.violation(ob, f"race:{r.label}", what, text)
+                verdict, detail = (v, what)
+                if v in ("violated", "known"):
+                    break
+            else:
+                benign += 1
+        if verdict == "discharged":
+            detail = (f"{len(seen)} distinct (read, foreign write) conflicts: {len(seen) - tried} infeasible by the solver, {benign} feasible "
+                      f"schedules replayed on the real code without any change of result")
+        run.obligation(ob, verdict, detail, paths=len(seen), queries=stats_q, solver_s=stats_t)
+    run.obligation("conflicts.commuting_pairs", "discharged" if recs else "inconclusive",
+                   f"{n_free} of {len(pairs)} operation pairs have no read of a cell the other operation writes (every interleaving "
+                   f"is equivalent to a sequential order); {n_conf} pairs with conflicts decided by the schedule encoder",
+                   paths=len(pairs))
+    run.extra["record_s"] = round(time.time() - t0, 1)
     # frame obligations for the operations (E2, symbolic data): the universal part of the conflict analysis
     hs = [h for h in l17.harnesses(tier, run.seed) if any(x in h.name for x in (".write.", ".roundtrip.", ".validate.", ".json.", ".parse_pcf."))]
     if tier != "thorough":
         hs = hs[:15]
     ch.run_harnesses(run, "C18", hs, timeout=200 if tier == "quick" else 600)
-    # (2) traces of the operations that touch the tracked cell, recorded on the real code
-    D = decimal.Decimal
-    trA = trace_decimal_context(lambda: decimal_roundtrip(6, 2, D("1234.56")))
-    trB = trace_decimal_context(lambda: decimal_roundtrip(2, 1, D("1.2")))
-    run.sample(dict(kind="access trace of read_decimal on the shared context", trace=trA))
-    shape_ok = [e[0] for e in trA] == [e[0] for e in trB]
-    if not trA:
-        run.obligation("schedule.read_decimal", "discharged",
-                       "read_decimal makes no access to a shared decimal context: nothing to interleave", paths=1, queries=0)
-    else:
-        # (3) schedule encoding with symbolic precisions and digit counts
-        pA, pB, dA, dB = z3.Ints("pA pB dA dB")
-        vals = {"A": (pA, dA), "B": (pB, dB)}
-        traces = {}
-        for t, tr in (("A", trA), ("B", trB if shape_ok else trA)):
-            evs = []
-            for e in tr:
-                evs.append(sched.Ev(t, e[0], e[1], vals[t][0] if e[0] == "W" else None, label=str(e[2])))
-            traces[t] = evs
+    # validation: real threads, no forced schedule, results equal the sequential ones
+    res = {}
 
-        def observable(r, observed, own):
-            # create_decimal rounds to the context precision: the result changes iff the observed precision is
-            # smaller than the number of digits of the thread's unscaled integer (which its own precision admits)
-            d = vals[r.thread][1]
-            return z3.And(observed < d, d <= own)
-
-        extra = [pA >= 1, pA <= 28, pB >= 1, pB <= 28, dA >= 1, dA <= pA, dB >= 1, dB <= pB]
-        status, info, stats = sched.find_race(traces, observable, extra)
-        nq = 1
-        if status == "sat":
-            m = info["model"]
-            pa, pb, da, db = (m.eval(x, model_completion=True).as_long() for x in (pA, pB, dA, dB))
-            order = [(e.thread, sum(1 for x in traces[e.thread][: e.idx])) for e in info["order"]]
-            args = {"A": (pa, 0, "9" * da), "B": (pb, 0, "9" * db)}
-            text = REPLAY.format(order=order, args=args)
-            what = (f"schedule {[(e.thread, e.kind, e.label) for e in info['order']]} with precisions A={pa} B={pb}, digits A={da} B={db}: "
-                    "a thread's create_decimal runs under the other thread's precision")
-            v = run.violation("schedule.read_decimal", "race:decimal_context.prec", what, text)
-            run.obligation("schedule.read_decimal", v if v != "inconclusive" else "inconclusive", what, paths=1, queries=nq,
-                           solver_s=stats.get("solver_s", 0))
-        elif status in ("unsat", "no-conflict"):
-            run.obligation("schedule.read_decimal", "discharged", f"no interleaving changes a result ({status}; {stats})", paths=1,
-                           queries=nq, solver_s=stats.get("solver_s", 0))
-        else:
-            run.obligation("schedule.read_decimal", "inconclusive", f"solver: {status}", paths=1, queries=nq)
-    # validation: real threads, no forced schedule, results equal sequential
-    res, ths = {}, []
-    for i, (p, s, x) in enumerate([(6, 2, D("1234.56")), (2, 1, D("1.2")), (10, 0, D("123456789")), (3, 0, D("999"))]):
-        ths.append(threading.Thread(target=lambda i=i, p=p, s=s, x=x: res.__setitem__(i, [decimal_roundtrip(p, s, x) for _ in range(200)])))
+    def worker(i, name):
+        res[i] = [repr(c18ops.solo(name)) for _ in range(20)]
+    ths = [threading.Thread(target=worker, args=(i, n)) for i, n in enumerate(names[:8])]
     [t.start() for t in ths]
     [t.join() for t in ths]
+    for i, n in enumerate(names[:8]):
+        if any(x != repr(solo[n]) for x in res.get(i, [])):
+            run.internal_errors.append(f"free-running threads: {n} gave a result different from its sequential one")
     run.validated += len(ths)
     l2.describe(run, tier)
-    run.bounds += ["conflict analysis: every catalogue operation of C17 (native) and the frame obligations (CrossHair, symbolic data) - an "
-                   "operation that writes no shared cell commutes with every other operation, so all interleavings of such operations are "
-                   "equivalent to a sequential order", "schedule encoding: two threads, every interleaving of their recorded access traces on "
-                   "each written cell, precisions 1..28 and digit counts symbolic"]
+    run.bounds += [f"scenario catalogue: {len(names)} operations ({', '.join(names)}), every unordered pair including an operation paired with "
+                   "itself (then both threads share the parsed schema objects); two threads",
+                   "schedule encoding: every (read, foreign write) pair on a conflicting cell, all interleavings of the two recorded access "
+                   "traces (z3 position variables); data of the operations concrete (catalogue), frame obligations with symbolic data",
+                   "shared state: everything mutable reachable from module globals and mutable default arguments of the fastavro modules, "
+                   "the parsed schemas shared by the threads, and everything stored into those (by object identity at run time)"]
     run.assumptions += ["thread switches happen between bytecodes; a C-level call on a shared object is atomic under the GIL (free-threaded "
-                        "builds are outside)", "the monitor sees every access to the tracked cell (attribute writes and create_decimal calls)"]
-    run.outside += ["three or more threads on a written cell", "free-threaded CPython"]
+                        "builds are outside)",
+                        "traces are recorded per operation from the initial state; a schedule is replayed up to the racy read, after which the "
+                        "threads run freely (the code may take paths the recording did not see)",
+                        "replay gates threads at line boundaries of the real code: two conflicting accesses on one source line cannot be separated"]
+    run.outside += ["three or more threads", "free-threaded CPython", "state outside fastavro's modules (stdlib caches, the global random source)",
+                    "races that need particular data other than the catalogue's to change a result"]
+    run.stubs |= {"none in the replay: real modules, real threads, real streams"}
